@@ -14,7 +14,7 @@ ASSUMPTIONS = [
     "timestamps and durations are integers after loading (HTA_DISABLE_NS_ROUNDING unset)",
     "durations are non-negative; every rank has at least one device activity (the property's quantifier)",
     "pandas sort_values returns some permutation sorted by the key; groupby/cumsum/cummax/shift have their documented meaning on integer columns",
-    "percentages are compared with round(100*part/kernel_time, 2) within 0.006 (floating point not modelled)",
+    "percentages must lie within half a unit in the last reported place of the unrounded exact ratio (any tie rule accepted; float rounding not modelled): |pct - 100*part/kernel_time| <= 0.005",
 ]
 TRUSTED = ["get_kernel_type's three regular expressions are modelled by prefix/infix tests (Model/KernelType.lean) and compared with Python's re on every generated name"]
 
@@ -61,7 +61,7 @@ def model(drv, case, obs) -> Dict[str, Any]:
 
 
 def _pct(part, total):
-    return round(100 * (part / total), 2)
+    return 100 * (part / total)      # unrounded; the report may round a tie either way
 
 
 def compare(obs, mod) -> List[str]:
@@ -85,7 +85,7 @@ def compare(obs, mod) -> List[str]:
         if m["kernel_time"] > 0:
             for k, pk in (("idle", "idle_pct"), ("compute", "compute_pct"), ("non_compute", "non_compute_pct")):
                 exp = _pct(m[k], m["kernel_time"])
-                if i[pk] == "nan" or abs(float(i[pk]) - exp) > 0.006:
+                if i[pk] == "nan" or abs(float(i[pk]) - exp) > 0.005 + 1e-9:
                     diffs.append(f"rank {r} {pk}: impl={i[pk]} expected={exp}")
     return diffs
 
